@@ -271,6 +271,7 @@ pub struct Ctx {
     pub branch_nl_timeout_ms: u64,
     /// wall-clock deadline of the unit being explored (None = no limit)
     pub deadline: Option<Instant>,
+    ticks: std::cell::Cell<u32>,
     pc_smt: Vec<String>,
     levels: Vec<Level>,
     solver_epoch: u64,
@@ -404,7 +405,7 @@ impl Ctx {
             solver: Solver::new(timeout_ms), mode: Mode::Symbolic, exact_inputs: HashMap::new(), exact_default: BigRational::zero(),
             var_names: vec![], var_ids: HashMap::new(),
             pc: vec![], decisions: vec![], prefix: vec![], pending: vec![], trace: vec![], cache: HashMap::new(),
-            stats: PathStats::default(), violations: vec![], max_decisions: 400, check_obligations: true, approx: false, n_inputs: 0, branch_nl_timeout_ms: timeout_ms, deadline: None, pc_smt: vec![], levels: vec![], solver_epoch: 0, lin_memo: RefCell::new(HashMap::new()), n_lin_decided: std::cell::Cell::new(0), unit_box: Default::default(), alin_memo: RefCell::new(HashMap::new()), alin_old: RefCell::new(HashMap::new()), alin_weight: std::cell::Cell::new(0), poly_memo: RefCell::new(HashMap::new()), n_poly_decided: std::cell::Cell::new(0), rat_memo: RefCell::new(HashMap::new()), n_rat_decided: std::cell::Cell::new(0), rat_ok: std::cell::Cell::new(false), box_seq: 0, crosscheck_every: 0, ob_seq: 0, crosscheck: (0, 0, 0, vec![]), concolic: None, concretised: false, fval_memo: RefCell::new(HashMap::new()),
+            stats: PathStats::default(), violations: vec![], max_decisions: 400, check_obligations: true, approx: false, n_inputs: 0, branch_nl_timeout_ms: timeout_ms, deadline: None, ticks: std::cell::Cell::new(0), pc_smt: vec![], levels: vec![], solver_epoch: 0, lin_memo: RefCell::new(HashMap::new()), n_lin_decided: std::cell::Cell::new(0), unit_box: Default::default(), alin_memo: RefCell::new(HashMap::new()), alin_old: RefCell::new(HashMap::new()), alin_weight: std::cell::Cell::new(0), poly_memo: RefCell::new(HashMap::new()), n_poly_decided: std::cell::Cell::new(0), rat_memo: RefCell::new(HashMap::new()), n_rat_decided: std::cell::Cell::new(0), rat_ok: std::cell::Cell::new(false), box_seq: 0, crosscheck_every: 0, ob_seq: 0, crosscheck: (0, 0, 0, vec![]), concolic: None, concretised: false, fval_memo: RefCell::new(HashMap::new()),
         }
     }
     pub fn begin_path(&mut self, prefix: Vec<u8>) {
@@ -449,7 +450,15 @@ impl Ctx {
         };
         if s.len() > 400 { format!("{}…", s.chars().take(400).collect::<String>()) } else { s }
     }
+    /// the unit's wall-clock budget also bounds the engine's own work (term construction, normal forms), not only the branching:
+    /// checked every 1024 calls; past the deadline the path is abandoned like any other budget overrun
+    fn tick(&self) {
+        let t = self.ticks.get().wrapping_add(1);
+        self.ticks.set(t);
+        if t % 1024 == 0 && self.mode == Mode::Symbolic { if let Some(d) = self.deadline { if Instant::now() > d + std::time::Duration::from_secs(5) { std::panic::panic_any(EngineAbort("budget: unit time budget exhausted".into())); } } }
+    }
     pub fn mk(&mut self, n: Node) -> u32 {
+        self.tick();
         if let Some(&i) = self.cons.get(&n) { return i; }
         let i = self.nodes.len() as u32;
         let (def, deps, nd): (Option<String>, [u32; 2], u8) = match &n {
@@ -583,7 +592,7 @@ impl Ctx {
     fn poly_mul_cap(&self, a: &Poly, b: &Poly, cap: usize) -> Option<Poly> {
         if a.m.len() * b.m.len() > 4 * cap { return None; }
         let mut out = Poly { m: Default::default() };
-        for (ma, ca) in &a.m { for (mb, cb) in &b.m {
+        for (ma, ca) in &a.m { self.tick(); for (mb, cb) in &b.m {
             // merge monomials
             let mut mono: Mono = Vec::with_capacity(ma.len() + mb.len());
             let (mut i, mut j) = (0, 0);
@@ -619,6 +628,7 @@ impl Ctx {
     /// polynomial normal form (None when it grows beyond the cap)
     pub fn poly(&self, id: u32) -> Option<std::rc::Rc<Poly>> {
         if let Some(p) = self.poly_memo.borrow().get(&id) { return p.clone(); }
+        self.tick();
         let r: Option<Poly> = (|| Some(match &self.nodes[id as usize] {
             Node::Const(r) => Poly::konst(r.clone()),
             Node::Add(a, b) => self.poly(*a)?.add(&*self.poly(*b)?, &BigRational::one()),
@@ -670,6 +680,7 @@ impl Ctx {
         if let Some(l) = self.alin_memo.borrow().get(&id) { return l.clone(); }
         let promoted = self.alin_old.borrow_mut().remove(&id);
         if let Some(l) = promoted { self.alin_insert(id, l.clone()); return l; }
+        self.tick();
         let atom = |id: u32| ALin { c0: BigInt::zero(), t: vec![(id, BigInt::one() << AGRID)], err: BigInt::zero() };
         let l = match &self.nodes[id as usize] {
             Node::Const(r) => ALin::konst(r),
@@ -698,6 +709,7 @@ impl Ctx {
     /// linear normal form (memoised; the memo is dropped when it grows large)
     pub fn lin(&self, id: u32) -> std::rc::Rc<Lin> {
         if let Some(l) = self.lin_memo.borrow().get(&id) { return l.clone(); }
+        self.tick();
         let atom = |id: u32| Lin { c0: BigRational::zero(), t: vec![(id, BigRational::one())] };
         let l = match &self.nodes[id as usize] {
             Node::Const(r) => Lin { c0: r.clone(), t: vec![] },
